@@ -268,7 +268,7 @@ def publisher_templates(za):
     return out, node, len(paths)
 
 
-@rule('C02.R5', 'wire encoding of topic names agrees between publisher (send_maybe), subscriber prefix (Sender.__init__) and decoder (recv_once)')
+@rule('C02.R5', 'wire encoding of topic names agrees between publisher (send_maybe), subscriber prefix (Sender.__init__) and decoder (recv_once), and the prefix match is narrowed to whole names: a topic the explicit subscription does not list is dropped by the receiver')
 def r5(rr, repo):
     za = anchors(repo)
     pub, pnode, npaths = publisher_templates(za)
@@ -342,8 +342,35 @@ def r5(rr, repo):
             topic_arg = c.args[1].id
     if topic_arg is None:
         raise Unresolved(f'{Z}: cannot tell which local of recv_once holds the decoded topic')
-    dec = [n for n in walk_scope(za.R_once) if isinstance(n, ast.Assign) and any(isinstance(t, ast.Name) and t.id == topic_arg for t in n.targets)]
+    binds = [n for n in walk_scope(za.R_once) if isinstance(n, ast.Assign) and any(isinstance(t, ast.Name) and t.id == topic_arg for t in n.targets)]
+    dec = [n for n in binds if any(isinstance(x, ast.Name) and x.id == 'msg' for x in ast.walk(n.value))]       # the decoder proper: derives the name from the message's first frame
     rr.floor('decoder assignments of the topic', len(dec), 1, za.mod, za.R_once)
+    # A SUBSCRIBE filter is a byte PREFIX: the prefix of topic T ('/T/') also admits the frame of every topic that continues it ('/T/x/'). Whole names are selected
+    # only if the receiver itself drops what the subscription does not list (the message then counts as the topic-less information message: topic = ''), or if the
+    # publisher refuses topic names that contain the delimiter.
+    def member_test(t):
+        return any(isinstance(c, ast.Compare) and len(c.ops) == 1 and isinstance(c.ops[0], (ast.NotIn, ast.In)) and U(c.left) == topic_arg and U(c.comparators[0]) in ('sender.recvd_new', 'sender.topic_map') for c in ast.walk(t))
+    blank = [n for n in binds if n not in dec]
+    guards = []
+    for n in blank:
+        g = q.guards_of(n, stop=za.R_once)
+        own = [t for t, pol in g if pol and member_test(t)]
+        is_blank = isinstance(n.value, ast.Constant) and n.value.value == ''
+        if not (is_blank and own):
+            rr.unresolved(f'recv_once rebinds the decoded topic in a way this rule does not know: {U(n)[:80]}', za.mod, n, key='topic-rebound')
+            continue
+        t = own[0]
+        conj = [U(v) for v in t.values] if isinstance(t, ast.BoolOp) and isinstance(t.op, ast.And) else [U(t)]
+        exact = any(c == f'{topic_arg} not in sender.recvd_new' for c in conj) and all(c in (topic_arg, 'not sender.subscribed_all', f'{topic_arg} not in sender.recvd_new') for c in conj)
+        first_use = min([c.lineno for c in ast.walk(za.R_once) if isinstance(c, ast.Call) and U(c.func).startswith('process_msg')] or [10 ** 9])
+        rr.ob('an explicit subscription drops every topic it does not list before anything is stored: the message is demoted to the topic-less information message exactly when the subscription is explicit and the name is not in it',
+              exact and n.lineno < first_use, za.mod, n, witness=U(t)[:160], key='whole-names-receiver')
+        guards.append(n)
+    if not guards:
+        _, sm = za.mod, za.S_maybe
+        refuses = [r for fn in (za.S_send, za.S_maybe) for r in walk_scope(fn) if isinstance(r, ast.Raise) and any(('TOPIC_DELIM' in U(t) or "'/'" in U(t)) and ' in ' in U(t) for t, pol in q.guards_of(r, stop=fn))]
+        rr.ob("whole topic names are selected: the subscription prefix of `a` ('/a/') also admits the frame of a topic `a/b` ('/a/b/'), so either the receiver drops names its subscription does not list or the publisher refuses "
+              "names that contain the delimiter", bool(refuses), za.mod, dec[0] if dec else za.R_once, witness='neither a membership test on the decoded topic in recv_once nor a delimiter check in ZMQSender.send', key='whole-names')
     for d in dec:
         for case, want in (('hidden', (('sym', 'T'),)), ('normal', (('sym', 'T'),)), ('control', ())):
             te = TemplateEval(za.consts, {}, case == 'hidden')
